@@ -21,8 +21,8 @@ def run(tier, seed, only=None):
                  'CrossHair explores whole real sessions (db_session, commit/rollback/flush, Database.execute/insert/get_connection, '
                  'SessionCache, SQLiteProvider transaction handling, the real SQLitePool) running on the real sqlite3 engine and a real '
                  'database file. A forwarding wrapper connection numbers every statement that would reach SQLite; the number of the '
-                 'statement that fails (and of a second one), whether the failure is a single OperationalError or the death of the '
-                 'connection (every later call refused, raw connection closed without commit), the session mode and whether a pooled '
+                 'statement that fails (and of a second / third one), whether the failure is a single OperationalError before or after the '
+                 'statement took effect or the death of the connection (every later call refused, raw connection closed without commit), the session mode and whether a pooled '
                  'connection exists are symbolic. Afterwards a fresh sqlite3 connection must find one of the commit-point states of '
                  'the write program (never a strict subset of a unit), not older than the last acknowledged commit; after a '
                  'survivable error no transaction is left open and a following session commits normally. Only "Confirmed over all '
@@ -39,7 +39,13 @@ def run(tier, seed, only=None):
     T = 150 if tier == 'quick' else 900
     # read by checks/h_c17.py in the worker processes
     os.environ.setdefault('C17_KMAX', '48')
-    os.environ['C17_K2MAX'] = os.environ.get('C17_K2MAX_OVERRIDE') or os.environ['C17_KMAX']
+    os.environ['C17_K2MAX'] = os.environ['C17_KMAX']
+    if tier == 'thorough':
+        os.environ['C17_K3MAX'] = os.environ['C17_KMAX']
+        os.environ['C17_FULL'] = '1'
+    else:
+        os.environ['C17_K3MAX'] = '0'
+        os.environ['C17_FULL'] = '0'
     from checks import h_c17
     specs = [dict(module='checks.h_c17', fn=f, cond_timeout=T, path_timeout=T / 2, setup='setup') for f in h_c17.HARNESSES]
     if only: specs = [s for s in specs if only in s['fn']]
@@ -47,10 +53,13 @@ def run(tier, seed, only=None):
     rep.bounds = {
         'write programs (enumerated, one harness each)': list(h_c17.HARNESSES),
         'fault positions': 'k1 in 0..%s over every statement of the faulted session (PRAGMAs of a new connection, BEGIN IMMEDIATE, SELECT, '
-                           'INSERT/UPDATE/DELETE, executemany, commit(), rollback()); second position k1 < k2 <= %s after a survivable first '
-                           'error; a path issuing more than KMAX statements fails the harness (longest program: 18)'
-                           % (os.environ['C17_KMAX'], os.environ['C17_K2MAX']),
-        'failure kinds': ['sqlite3.OperationalError raised once instead of the statement', 'connection dies: this and every later call refused, raw connection closed without commit'],
+                           'INSERT/UPDATE/DELETE, executemany, commit(), rollback(); numbering runs on through a retried attempt); a path issuing '
+                           'more than KMAX statements fails the harness (longest program: 18 statements)' % os.environ['C17_KMAX'],
+        'fault sequences': ('one fault of any kind, or two faults k1 < k2 with kinds (error-before, error-before) / (error-before, dies)' if tier == 'quick' else
+                            'two faults k1 < k2 of every kind combination (death is final), or three faults k1 < k2 < k3 with kinds '
+                            '(error-before, error-before, error-before | dies)'),
+        'failure kinds': ['0: sqlite3.OperationalError raised once INSTEAD of the statement', '1: connection dies: this and every later call refused, raw connection '
+                          'closed without commit', '2: the statement reaches SQLite and THEN sqlite3.OperationalError is raised once'],
         'session modes': list(h_c17.MODE_NAMES),
         'pooled connection present': [False, True],
         'database': 'file-backed SQLite (rollback-journal mode, the default), 4 tables, 3+2+2 seed rows',
@@ -58,7 +67,7 @@ def run(tier, seed, only=None):
     rep.assumptions = [
         'the `sqlite` module global of pony.orm.dbproviders.sqlite points at a wrapper module: connect() opens a real sqlite3 connection and returns a '
         'forwarding wrapper; the pool is a real SQLitePool handed over through pony_pool_mockup',
-        'a faulted statement does not reach SQLite (error-before-effect); a faulted commit()/rollback() leaves the transaction open',
+        'kind 0/1: the faulted statement does not reach SQLite (a faulted commit()/rollback() leaves the transaction open); kind 2: it does, its cursor is reset, then the error is raised',
         '"dies" = every later DB-API call raises sqlite3.OperationalError and the raw connection is closed without commit: the in-process stand-in for '
         'process death at a statement boundary; pony\'s cleanup code still runs but can no longer reach the database',
         'SQLite\'s journal is trusted: a transaction that was not committed when its connection closes is gone',
@@ -68,7 +77,53 @@ def run(tier, seed, only=None):
         'the concrete bulk of each path runs with CrossHair\'s opcode tracer switched off (fakedb.untraced); tracing is on for every comparison of a '
         'symbolic fault position with the statement counter, the only place symbolic data is used',
     ]
+    rep.assumptions.append('concrete tie (not solver-quantified): forked child processes really exit at statement k; programs: %s'
+                           % (', '.join(TIE_QUICK) + ' x 3 modes' if tier == 'quick' else 'all x 4 modes'))
     rep.trusted = ['crosshair-tool 0.0.110', 'z3', 'sqlite3 / SQLite journal', 'wrapper connection + reference change lists in checks/h_c17.py',
                    'engine/fakedb.py (untraced, traced_eq, ProbeLock)']
+    tie = None if only else start_tie(tier)          # runs beside the CrossHair workers
     ch.run_harnesses(rep, specs, classify)
+    if tie is not None: finish_tie(rep, tie, tier)
     return rep
+
+
+TIE_QUICK = ('m2m', 'commit_mid_raw')
+
+
+def start_tie(tier):
+    """Concrete tie (NOT solver-quantified; reported as 'concrete-tie' obligations): checks/h_c17.py tie_main() - the same
+    sessions in forked child processes that really end (os._exit) at statement k, for every k; the parent process then
+    reads the file (SQLite's hot-journal recovery runs for real).  Quick tier: programs TIE_QUICK x 3 modes; thorough:
+    every program x 4 modes."""
+    import subprocess, sys
+    env = dict(os.environ)
+    env['C17_TIE_PROGRAMS'] = ','.join(TIE_QUICK) if tier == 'quick' else ''
+    return subprocess.Popen([sys.executable, '-m', 'checks.h_c17'], env=env, stdout=subprocess.PIPE, stderr=subprocess.PIPE, text=True)
+
+
+def finish_tie(rep, proc, tier):
+    import json, subprocess
+    from engine.core import Ob, HOLDS, CEX, INCONCLUSIVE
+    try:
+        out, err = proc.communicate(timeout=300 if tier == 'quick' else 3000)
+    except subprocess.TimeoutExpired:
+        proc.kill()
+        out, err = proc.communicate()
+        err = 'timeout; ' + (err or '')
+    seen = 0
+    for line in out.splitlines():
+        try: d = json.loads(line)
+        except ValueError: continue
+        seen += 1
+        nm = 'tie:process-death:%s: os._exit at every statement, file read by the parent process' % d['program']
+        if d['bad']:
+            b = d['bad'][0]
+            rep.add(Ob(nm, 'concrete-tie', CEX, detail='mode %s, exit at statement %d: %s' % (b['mode'], b['k'], '; '.join(b['why'])), reproduced=True,
+                       cex=dict(program=d['program'], mode=b['mode'], k=b['k']),
+                       replay='# see tie_main in /verif/checks/h_c17.py: program %s, mode %s, os._exit at statement %d\n'
+                              '# C17_TIE_PROGRAMS=%s PYTHONPATH=/verif /verif/.venv/bin/python -m checks.h_c17\nraise SystemExit(1)\n'
+                              % (d['program'], b['mode'], b['k'], d['program'])))
+        else:
+            rep.add(Ob(nm, 'concrete-tie', HOLDS, detail='%d child processes' % d['runs']))
+    if proc.returncode != 0 or not seen:
+        rep.add(Ob('tie:process-death', 'concrete-tie', INCONCLUSIVE, detail='tie subprocess exit %r: %s' % (proc.returncode, (err or '')[-600:])))
